@@ -839,6 +839,10 @@ func (c *fnCtx) callWrites(call ssa.CallInstruction, record func(oset, *writeSit
 		case "append":
 			if sl, ok := com.Args[0].(*ssa.Slice); ok && sl.High != nil {
 				record(c.pts(sl.X), &writeSite{Pos: call.Pos(), Leaf: leaf, What: "append onto a re-sliced prefix overwrites the elements behind it"})
+			} else if prefixReslice(c.p.w, com.Args[0], 0, map[ssa.Value]bool{}) {
+				// the prefix was cut by a helper (x.drop(), a phi of re-slices):
+				// the storage written is whatever the value refers to
+				record(c.pts(com.Args[0]), &writeSite{Pos: call.Pos(), Leaf: leaf, What: "append onto a re-sliced prefix (cut by " + valueName(strip(com.Args[0])) + ") overwrites the elements behind it"})
 			}
 		}
 		return
@@ -1007,4 +1011,79 @@ func rulePurePatch(w *World, r *Report, pf *patchFamily, fam map[*ssa.Function]b
 		}
 		r.Check(bad == "", rule, key, w.Pos(fn.Pos()), "writes only into the node being patched and into fresh storage", bad)
 	}
+}
+
+// prefixReslice: v may be a slice with its length cut below the length of
+// the storage it views (x[:n]), so that an append onto it writes into
+// elements its owner still sees: a Slice with a high bound, a phi of such, or
+// the result of a function of the analysed packages one of whose returns is
+// such a re-slice of a parameter (not of fresh storage).
+func prefixReslice(w *World, v ssa.Value, depth int, seen map[ssa.Value]bool) bool {
+	v = strip(v)
+	if seen[v] || depth > 3 {
+		return false
+	}
+	seen[v] = true
+	switch x := v.(type) {
+	case *ssa.Slice:
+		if x.High != nil {
+			return !freshBacking(x.X, 0)
+		}
+		return prefixReslice(w, x.X, depth, seen)
+	case *ssa.Phi:
+		for _, e := range x.Edges {
+			if prefixReslice(w, e, depth, seen) {
+				return true
+			}
+		}
+	case *ssa.Call:
+		sf := staticCallee(x)
+		if sf == nil || sf.Blocks == nil {
+			return false
+		}
+		if pk := fnPkg(sf); pk == nil || (pk.Path() != pathV2 && pk.Path() != pathLib) {
+			return false
+		}
+		for _, ret := range returnsOf(sf) {
+			if len(ret.Results) > 0 && prefixReslice(w, ret.Results[0], depth+1, map[ssa.Value]bool{}) {
+				return true
+			}
+		}
+	case *ssa.Extract:
+		if c, ok := x.Tuple.(*ssa.Call); ok {
+			sf := staticCallee(c)
+			if sf == nil || sf.Blocks == nil {
+				return false
+			}
+			if pk := fnPkg(sf); pk == nil || (pk.Path() != pathV2 && pk.Path() != pathLib) {
+				return false
+			}
+			for _, ret := range returnsOf(sf) {
+				if x.Index < len(ret.Results) && prefixReslice(w, ret.Results[x.Index], depth+1, map[ssa.Value]bool{}) {
+					return true
+				}
+			}
+		}
+	}
+	return false
+}
+
+// freshBacking: v is storage allocated here (make / composite literal /
+// append result of such): cutting and appending to it touches nobody else.
+func freshBacking(v ssa.Value, depth int) bool {
+	v = strip(v)
+	if depth > 4 {
+		return false
+	}
+	switch x := v.(type) {
+	case *ssa.MakeSlice, *ssa.Alloc:
+		return true
+	case *ssa.Slice:
+		return freshBacking(x.X, depth+1)
+	case *ssa.Call:
+		if b, ok := x.Call.Value.(*ssa.Builtin); ok && b.Name() == "append" {
+			return freshBacking(x.Call.Args[0], depth+1)
+		}
+	}
+	return false
 }
